@@ -6,7 +6,7 @@ independent python reference (hashlib/hmac/zlib/bz2 + openssl enc) that knows on
 to the requested fields, reference -> daemon is accepted with the same fields; (c) the suite's frozen credential."""
 import json, os, struct
 from ..vlib import leanlib, cbuild, judge
-from ..gen import g_dec, g_unpack, g_pack
+from ..gen import g_dec, g_unpack, g_pack, g_stages
 from . import _cred_common as cc
 from . import _cred_checks as K
 from . import _v3ref as R
@@ -121,6 +121,9 @@ def run(ctx):
     # the packers of enc.c, translated the same way: the stores tile the allocation in the documented order
     if g_pack.generate(ctx):
         leanlib.check_props(ctx, "C10Pack")
+    # enc_compress (and the decode stages) translated with their primitive calls as events: the header says NONE exactly when the inner layer stays uncompressed
+    if g_stages.generate(ctx):
+        leanlib.check_props(ctx, "C02Stages")
     leanlib.check_props(ctx, "C10")
     drv = leanlib.driver(ctx)
     htoy = cc.build_toy(ctx)
